@@ -205,6 +205,67 @@ def post(solver, gen, rng, depth):
         solver._verif_sems.append(sc)
 
 
+def _corner_specs():
+    """(declarations, [(build(vars) -> real constraint, shadow(asg) -> bool)]): deterministic sessions around the corners that
+    random sessions reach only now and then -- aggregates over Python literals only, constant constraints, constraints that
+    differ only in the sign of a literal, duplicates, singleton domains.  b = Boolean, (lo, hi) = integer."""
+    import cspuz
+    ct, fo, fa, ad = cspuz.count_true, cspuz.fold_or, cspuz.fold_and, cspuz.alldifferent
+    T = lambda a: True
+    specs = [
+        (["b"], [(lambda v: ct(True, False, True) == 2, T)]),
+        (["b"], [(lambda v: ct(True) == 0, lambda a: False)]),
+        (["b"], [(lambda v: ct([True, [True, False]], True) >= 3, T), (lambda v: v[0], lambda a: a["b0"])]),
+        (["b"], [(lambda v: ct(v[0], True) == 1, lambda a: not a["b0"])]),
+        (["b"], [(lambda v: ct(True, True) == ct(v[0], True, False) + 1, lambda a: not a["b0"])]),
+        (["b"], [(lambda v: fo(), lambda a: False)]),
+        (["b"], [(lambda v: fa(), T), (lambda v: ~v[0], lambda a: not a["b0"])]),
+        (["b"], [(lambda v: fo(False, [False]), lambda a: False)]),
+        (["b"], [(lambda v: fa(True, [True, True]) & v[0], lambda a: a["b0"])]),
+        (["b"], [(lambda v: ad(1, 2, 3), T)]),
+        (["b"], [(lambda v: ad(1, 2, 1), lambda a: False)]),
+        (["b"], [(lambda v: ad(), T), (lambda v: ad(5), T)]),
+        (["b"], [(lambda v: True, T), (lambda v: v[0], lambda a: a["b0"])]),
+        (["b"], [(lambda v: v[0] | ~v[0], T), (lambda v: False, lambda a: False)]),
+        ([(-5, 5)], [(lambda v: v[0] == 3, lambda a: a["i0"] == 3), (lambda v: v[0] == -3, lambda a: a["i0"] == -3)]),
+        ([(-1, 1)], [(lambda v: v[0] != 1, lambda a: a["i0"] != 1), (lambda v: v[0] != 0, lambda a: a["i0"] != 0),
+                     (lambda v: v[0] != -1, lambda a: a["i0"] != -1)]),
+        ([(-4, 4)], [(lambda v: v[0] >= -3, lambda a: a["i0"] >= -3), (lambda v: v[0] >= 3, lambda a: a["i0"] >= 3),
+                     (lambda v: v[0] != 3, lambda a: a["i0"] != 3)]),
+        (["b", (-3, 3), (-3, 3)], [(lambda v: v[0].then(v[1] + 2 >= v[2]), lambda a: (not a["b0"]) or a["i1"] + 2 >= a["i2"]),
+                                   (lambda v: v[0].then(v[1] + (-2) >= v[2]), lambda a: (not a["b0"]) or a["i1"] - 2 >= a["i2"]),
+                                   (lambda v: v[0], lambda a: a["b0"]), (lambda v: v[2] == v[1], lambda a: a["i2"] == a["i1"])]),
+        ([(0, 3)], [(lambda v: v[0] >= 1, lambda a: a["i0"] >= 1), (lambda v: v[0] >= 1, lambda a: a["i0"] >= 1),
+                    (lambda v: v[0] <= 1, lambda a: a["i0"] <= 1)]),
+        ([(2, 2), (298, 298)], [(lambda v: v[0] + v[1] == 300, lambda a: a["i0"] + a["i1"] == 300)]),
+        (["b", (0, 2)], [(lambda v: v[0].cond(1, 2) == v[1], lambda a: (1 if a["b0"] else 2) == a["i1"]),
+                         (lambda v: cspuz.cond(v[0], v[1], 0) >= 1, lambda a: (a["i1"] if a["b0"] else 0) >= 1)]),
+    ]
+    return specs
+
+
+N_CORNERS = len(_corner_specs())
+
+
+def corner_session(k):
+    """The k-th deterministic corner session (same return type as random_session)."""
+    from cspuz import Solver
+    decls, items = _corner_specs()[k % N_CORNERS]
+    s = Solver()
+    s._verif_sems = []
+    s._verif_posts = []
+    vs = []
+    for d in decls:
+        vs.append(s.bool_var() if d == "b" else s.int_var(d[0], d[1]))
+    for build, shadow in items:
+        c = build(vs)
+        s._verif_posts.append([-1, [exprio.pexpr(c)]])
+        s.ensure(c)
+        s._verif_sems.append(shadow)
+    from cspuz.expr import BoolVar
+    return s, [v for v in vs if isinstance(v, BoolVar)], [v for v in vs if not isinstance(v, BoolVar)]
+
+
 DECL_FAILURES = []
 
 
